@@ -48,6 +48,18 @@ storage (raw MemoryFS / os.walk of the temp dir) and the predicate is applied:
                         primitive is not one the code recovers from by design), or the call
                         never returned
 
+The move functions of fs.move accept FS URLs as well as filesystem objects.  Cases with a `url`
+field give the source and / or the destination as an FS URL of the temp directory (every spelling
+in URL_FORMS); the library then opens and closes its own OSFS objects.  In the native style those
+objects are fault points too (the role of an OSFS opened by the library is looked up by its root
+directory); in the wrap style the side still given as an object is the fault-injecting proxy.
+
+Besides the injected faults, `real_failure_sweep` drives every entry point (objects, proxies and
+URLs, with and without workers) into REAL failures of the backends: a directory in the way of a
+destination file, a file in the way of a destination directory, a missing destination parent.
+Nothing is injected there; the predicate is the same plus "returned normally => the move is
+complete".
+
 Model side: coq/Fault/MoveFault.v / MoveFaultProofs.v; `model_crosscheck` evaluates the
 Coq model (vm_compute through coqc) on the Mem->Mem move_file / flat move_dir cases and
 compares primitive sequence, outcome and final file tables with the implementation for
@@ -87,6 +99,15 @@ THEOREM = ("Fault/MoveFaultProofs.v move_file_no_loss, move_file_reports, move_f
            "move_dir_no_loss, move_dir_source_removed_late")
 WATCHDOG_S = 20.0
 KNOWN_LOCAL = os.path.join(os.path.dirname(os.path.abspath(__file__)), "c07_known_local.json")
+
+# TODO: misbehaviours of the UNCHANGED library exposed by the coverage of this module that are not in
+# known_findings.json yet (signature strings).  They are routed through report.known_match first; while a
+# signature is listed here and not yet known it is recorded in the evidence (coverage['pending_findings'])
+# instead of failing the check.
+PENDING_FINDINGS = []
+
+# spellings of the FS URL of a directory <dir> (fs.opener: the default protocol is osfs)
+URL_FORMS = ("osfs://%s", "%s", "osfs://%s/")
 
 
 class Halt(BaseException):
@@ -452,12 +473,16 @@ class FaultFS(WrapFS):
 # --------------------------------------------------------------------------- native style
 
 ROLES = {}            # id(fs object) -> role
+ROOT_ROLES = {}       # root directory -> role, for the OSFS objects the library opens itself from an FS URL
 _PATCHES = []         # (owner, name, original)
 _INSTALLED = [False]
 
 
 def _role_of(obj):
-    return ROLES.get(id(obj), "tmp:" + type(obj).__name__)
+    role = ROLES.get(id(obj))
+    if role is None and ROOT_ROLES and isinstance(obj, OSFS):
+        role = ROOT_ROLES.get(getattr(obj, "root_path", None))
+    return role or "tmp:" + type(obj).__name__
 
 
 def _patch(owner, name, new):
@@ -691,6 +716,17 @@ def build_world(case, tmpbase):
     populate(draw, dpre, case.get("dst_tree", {}))
     ROLES.clear()
     CAPS.clear()
+    ROOT_ROLES.clear()
+    url = case.get("url")                 # None | "src" | "dst" | "both": that side is given as an FS URL
+    url_form = case.get("url_form") or URL_FORMS[0]
+
+    def as_url(raw, prefix, role):
+        """The FS URL of a directory of a temp-dir storage (the library opens its own OSFS for it)."""
+        if not isinstance(raw, OSFS):
+            raise ValueError("an FS URL needs a storage in the temp directory")
+        d = os.path.normpath(raw.getsyspath(prefix))
+        ROOT_ROLES[d] = role
+        return url_form % d
 
     def present(raw, role):
         """The object the call sees for a raw storage root."""
@@ -708,11 +744,11 @@ def build_world(case, tmpbase):
         elif spre == dpre:
             w.src_fs = w.dst_fs = SubFS(top, spre)
         else:
-            w.src_fs = SubFS(top, spre)
-            w.dst_fs = SubFS(top, dpre)
+            w.src_fs = as_url(sraw, spre, "src") if url in ("src", "both") else SubFS(top, spre)
+            w.dst_fs = as_url(draw, dpre, "dst") if url in ("dst", "both") else SubFS(top, dpre)
     else:
-        w.src_fs = present(sraw, "src")
-        w.dst_fs = present(draw, "dst")
+        w.src_fs = as_url(sraw, spre, "src") if url in ("src", "both") else present(sraw, "src")
+        w.dst_fs = as_url(draw, dpre, "dst") if url in ("dst", "both") else present(draw, "dst")
     if multi:
         from fs.multifs import MultiFS
         low = MemoryFS()
@@ -938,6 +974,11 @@ def _fs_tree(tree):
     return dict(files=files, dirs=dirs)
 
 
+# (backend pair, sides that can be given as an FS URL): a URL needs a directory of the temp dir behind it
+URL_PAIRS = [("os>os", ("src", "dst", "both")), ("os>mem", ("src",)), ("mem>os", ("dst",)),
+             ("sub(os)", ("src", "dst", "both"))]
+
+
 def all_cases(tier, seed):
     """The list of cases (dicts).  Deterministic for (tier, seed)."""
     rnd = random.Random(seed + 7)
@@ -1028,6 +1069,44 @@ def all_cases(tier, seed):
                             add("move_fs", style, backends, _fs_tree(tree),
                                 rnd.choice([T(), T([("a", "OLD"), ("z", "keep")])]),
                                 dict(workers=workers, preserve_time=pt), read_cap=rnd.choice([None, 2]))
+    # ---- the source and / or the destination given as an FS URL (fs.move opens and closes its own filesystem
+    # objects through fs.opener.manage_fs); native: the objects the library opens are fault points as well,
+    # wrap: the side still given as an object is the fault-injecting proxy
+    for tname, tree, fpath in FILE_TREES:
+        for backends, sides in URL_PAIRS:
+            for url in sides:
+                for style in ("native", "wrap"):
+                    if style == "wrap" and url == "both":
+                        continue          # nothing would be instrumented
+                    for dst_tree, dpath in ((T(), "g.txt"), (T([("g.txt", "OLD-CONTENT")]), "g.txt"),
+                                            (T([], dirs=["n"]), "n/g.txt")):
+                        for pt in (False, True):
+                            for form in URL_FORMS:
+                                add("move_file", style, backends, tree, dst_tree,
+                                    dict(src_path=fpath, dst_path=dpath, preserve_time=pt),
+                                    read_cap=rnd.choice([None, 2]), url=url, url_form=form)
+                                if style == "native" and backends in ("os>os", "sub(os)"):
+                                    add("move_file", style, backends, tree, dst_tree,
+                                        dict(src_path=fpath, dst_path=dpath, preserve_time=pt),
+                                        read_cap=rnd.choice([None, 2]), url=url, url_form=form, no_rename=True)
+    for tname, tree in DIR_TREES:
+        for backends, sides in URL_PAIRS:
+            for url in sides:
+                for style in ("native", "wrap"):
+                    if style == "wrap" and url == "both":
+                        continue
+                    for workers in (0, 1, 2, 4):
+                        for pt in (False, True):
+                            for form in URL_FORMS:
+                                for dst_tree, dpath in ((T(), "e"), (T([("e/a", "OLD"), ("e/z", "keep")]), "e"),
+                                                        (T(), "d")):
+                                    add("move_dir", style, backends, tree, dst_tree,
+                                        dict(src_path="d", dst_path=dpath, workers=workers, preserve_time=pt),
+                                        read_cap=rnd.choice([None, 2]), url=url, url_form=form)
+                                add("move_fs", style, backends, _fs_tree(tree),
+                                    rnd.choice([T(), T([("a", "OLD"), ("z", "keep")])]),
+                                    dict(workers=workers, preserve_time=pt), read_cap=rnd.choice([None, 2]),
+                                    url=url, url_form=form)
     # ---- FS.movedir on the filesystem itself
     for tname, tree in DIR_TREES:
         for backends in ("same(mem)", "same(os)", "subsame(mem)", "subsame(os)"):
@@ -1048,7 +1127,9 @@ def select_cases(tier, seed):
     """The cases in the order they are explored, and the size of the generator's universe.
 
     A stratified sample comes first (every function x style x backend pair x workers>0 x
-    rename-unavailable stratum: 3 cases, 2 when a temp directory is involved); quick stops
+    rename-unavailable stratum: 3 cases, 2 when a temp directory is involved; x which side is given
+    as an FS URL: 1 case per function x style x URL side x workers>0 x rename-unavailable, rotating over
+    the backend pairs and the URL spellings); quick stops
     there (and leaves out the 6-file trees), thorough continues with all remaining cases in
     random order until its time budget is used."""
     cases = all_cases(tier, seed)
@@ -1058,14 +1139,42 @@ def select_cases(tier, seed):
     strata = {}
     for c in pool:
         k = (c["function"], c["style"], c["backends"], c["args"].get("workers", 0) > 0,
-             bool(c.get("no_rename")))
+             bool(c.get("no_rename")), c.get("url") or "")
         strata.setdefault(k, []).append(c)
     chosen = []
-    for k in sorted(strata):
+    for k in sorted(kk for kk in strata if not kk[5]):
         group = strata[k]
         n = 3 if "os" not in k[2] else 2
         chosen.extend(rnd.sample(group, min(n, len(group))))
     rnd.shuffle(chosen)
+    # the FS URL cases are drawn with their own generator, so that the sample of the other strata for a seed
+    # does not depend on them.  Strata: function x style x which side is a URL x workers>0 x rename-unavailable;
+    # within a stratum the backend pair and the URL spelling rotate with the stratum index and the seed
+    # (quick: 1 case per stratum; thorough: 1 per backend pair, then everything else)
+    urnd = random.Random(seed + 13)
+    ustrata = {}
+    for k in sorted(kk for kk in strata if kk[5]):
+        ustrata.setdefault((k[0], k[1], k[5], k[3], k[4]), {})[k[2]] = strata[k]
+    uchosen = []
+    for i, k in enumerate(sorted(ustrata)):
+        by_backend = ustrata[k]
+        names = sorted(by_backend)
+        picks = names if tier == "thorough" else [names[(i + seed) % len(names)]]
+        for j, b in enumerate(picks):
+            form = URL_FORMS[(i + j + seed) % len(URL_FORMS)]
+            group = [c for c in by_backend[b] if c.get("url_form") == form] or by_backend[b]
+            uchosen.append(urnd.choice(group))
+    # interleave: the URL cases involve a temp directory and are among the slower ones
+    step = max(1, len(chosen) // max(1, len(uchosen)))
+    merged = []
+    ui = 0
+    for i, c in enumerate(chosen):
+        merged.append(c)
+        if i % step == step - 1 and ui < len(uchosen):
+            merged.append(uchosen[ui])
+            ui += 1
+    merged.extend(uchosen[ui:])
+    chosen = merged
     if tier != "thorough":
         return chosen, universe
     picked = set(id(c) for c in chosen)
@@ -1126,6 +1235,159 @@ def explore_case(case, tmpbase, repeats=1, stats=None):
 
 def signature(case, v):
     return "%s %s %s %s" % (v["kind"], case["function"], v["primitive"], v["fault_kind"])
+
+
+# --------------------------------------------------------------------------- real failures
+
+def _dst_of_tree(function, args, rel):
+    """Destination-side path (relative to the destination root) of the source-side path rel."""
+    if function == "move_fs":
+        return rel.strip("/")
+    s_ = args["src_path"].strip("/")
+    d_ = args["dst_path"].strip("/")
+    rel = rel.strip("/")
+    assert rel == s_ or rel.startswith(s_ + "/")
+    return (d_ + rel[len(s_):]).strip("/")
+
+
+def real_failure_cases(tier, seed):
+    """Cases whose destination holds an obstacle the backend itself refuses (nothing is injected): the call
+    cannot complete, so it has to raise, and no source file may be lost.  Every entry point x objects / proxies /
+    FS URLs x backend pair x workers.  Quick: 2 per (function, style, backends, URL side, workers>0) stratum."""
+    rnd = random.Random(seed + 29)
+    thorough = tier == "thorough"
+    cases = []
+
+    def add(function, style, backends, src_tree, dst_tree, args, real, **extra):
+        c = dict(function=function, style=style, backends=backends, src_tree=src_tree, dst_tree=dst_tree,
+                 args=args, real=real, read_cap=None)
+        c.update(extra)
+        cases.append(c)
+
+    forms = []        # (style, backends, url)
+    for backends in ("mem>mem", "mem>os", "os>mem", "os>os", "sub(mem)", "sub(os)"):
+        for style in ("native", "wrap", "wrap-coarse"):
+            forms.append((style, backends, None))
+    for backends, sides in URL_PAIRS:
+        for url in sides:
+            for style in ("native", "wrap"):
+                forms.append((style, backends, url))
+    for style, backends, url in forms:
+        ux = dict(url=url) if url else {}
+        for tname, tree, fpath in FILE_TREES:
+            for pt in (False, True):
+                for real, dst_tree, dpath in (
+                        ("dir-in-the-way", T([("g.txt/keep", "K")]), "g.txt"),
+                        ("empty-dir-in-the-way", T([], dirs=["g.txt"]), "g.txt"),
+                        ("missing-parent", T(), "nope/g.txt"),
+                        ("parent-is-a-file", T([("n", "not a directory")]), "n/g.txt")):
+                    add("move_file", style, backends, tree, dst_tree,
+                        dict(src_path=fpath, dst_path=dpath, preserve_time=pt), real,
+                        url_form=rnd.choice(URL_FORMS), **ux)
+        for tname, tree in DIR_TREES:
+            files = sorted(p for p, _c in tree["files"])
+            if not files:
+                continue
+            subdirs = sorted(set(p.rsplit("/", 1)[0] for p in files if p.count("/") > 1))
+            for function in ("move_dir", "move_fs"):
+                st = _fs_tree(tree) if function == "move_fs" else tree
+                for workers in ((0, 1, 2, 4) if thorough else (0, 2)):
+                    for pt in (False, True):
+                        a = dict(workers=workers, preserve_time=pt)
+                        if function == "move_dir":
+                            a.update(src_path="d", dst_path=rnd.choice(["e", "d"]))
+                        obstacles = []
+                        for which, p in (("first", files[0]), ("last", files[-1])):
+                            q = _dst_of_tree(function, a, p if function == "move_dir" else p[2:])
+                            obstacles.append(("dir-in-the-way-of-%s-file" % which, T([(q + "/keep", "K")])))
+                        q = _dst_of_tree(function, a, files[len(files) // 2] if function == "move_dir"
+                                         else files[len(files) // 2][2:])
+                        obstacles.append(("empty-dir-in-the-way", T([("zz-keep", "K")], dirs=[q])))
+                        for sd in subdirs[:1]:
+                            q = _dst_of_tree(function, a, sd if function == "move_dir" else sd[2:])
+                            obstacles.append(("file-in-the-way-of-dir", T([(q, "not a directory")])))
+                        for real, dst_tree in obstacles:
+                            add(function, style, backends, st, dst_tree, dict(a), real,
+                                url_form=rnd.choice(URL_FORMS), **ux)
+    # FS.move / FS.movedir on the filesystem itself
+    for backends in ("same(mem)", "same(os)", "subsame(mem)", "subsame(os)"):
+        for style in ("native", "wrap", "wrap-coarse"):
+            for tname, tree, fpath in FILE_TREES:
+                for pt in (False, True):
+                    for real, more_f, more_d, dpath in (
+                            ("dir-in-the-way", [["g.txt/keep", "K"]], [], "g.txt"),
+                            ("empty-dir-in-the-way", [], ["g.txt"], "g.txt"),
+                            ("missing-parent", [], [], "nope/g.txt"),
+                            ("parent-is-a-file", [["n", "not a directory"]], [], "n/g.txt")):
+                        st = dict(files=tree["files"] + more_f, dirs=tree["dirs"] + more_d)
+                        add("FS.move", style, backends, st, T(),
+                            dict(src_path=fpath, dst_path=dpath, overwrite=True, preserve_time=pt), real)
+            for tname, tree in DIR_TREES:
+                files = sorted(p for p, _c in tree["files"])
+                if not files:
+                    continue
+                for pt in (False, True):
+                    for real, more_f, more_d, dpath, create in (
+                            ("dir-in-the-way-of-first-file", [["e" + files[0][1:] + "/keep", "K"]], [], "e", False),
+                            ("dir-in-the-way-of-last-file", [["e" + files[-1][1:] + "/keep", "K"]], [], "e", True),
+                            ("missing-destination", [], [], "e", False),
+                            ("missing-parent", [], [], "nope/e", False),
+                            ("destination-is-a-file", [["e", "not a directory"]], [], "e", True)):
+                        st = dict(files=tree["files"] + more_f, dirs=tree["dirs"] + more_d)
+                        add("FS.movedir", style, backends, st, T(),
+                            dict(src_path="d", dst_path=dpath, create=create, preserve_time=pt), real)
+    universe = len(cases)
+    if thorough:
+        return cases, universe
+    strata = {}
+    for c in cases:
+        if len(c["src_tree"]["files"]) >= 6:
+            continue
+        k = (c["function"], c["style"], c["backends"], c.get("url") or "", c["args"].get("workers", 0) > 0)
+        strata.setdefault(k, []).append(c)
+    chosen = []
+    for k in sorted(strata):
+        group = strata[k]
+        first = rnd.choice(group)
+        chosen.append(first)
+        other = [c for c in group if c["real"] != first["real"]]
+        if other:
+            chosen.append(rnd.choice(other))
+    return chosen, universe
+
+
+def judge_real(case, res):
+    """Predicate for a run in which nothing was injected: no source data lost; returned normally => moved."""
+    out = [v for v in judge(case, res, "real") if v[0] == "source-data-lost" or res["outcome"] == "hang"]
+    if res["outcome"] == "ok" and scope_map(case, res["before"]) and not fully_moved(case, res):
+        out.append(("failure-not-reported", "the call returned normally but the move is incomplete "
+                    "(obstacle at the destination: %s)" % case.get("real")))
+    return out
+
+
+def real_failure_sweep(tier, seed, tmpbase, deadline):
+    cases, universe = real_failure_cases(tier, seed)
+    agg = dict(universe=universe, selected=len(cases), runs=0, raised=0, completed=0, skipped_for_time=0,
+               by_function={}, by_form={}, by_obstacle={}, errors={}, findings={}, sig_counts={})
+    for idx, case in enumerate(cases):
+        if time.time() > deadline:
+            agg["skipped_for_time"] = len(cases) - idx
+            break
+        for rep in range(2 if case["args"].get("workers", 0) > 0 else 1):
+            res = run_once(case, tmpbase)
+            agg["runs"] += 1
+            agg["raised" if res["outcome"] == "raised" else "completed"] += 1
+            form = "%s/%s" % (case["style"], "url=" + case["url"] if case.get("url") else "objects")
+            for name, key in (("by_function", case["function"]), ("by_form", form), ("by_obstacle", case["real"]),
+                              ("errors", res["error"] or res["outcome"])):
+                agg[name][key] = agg[name].get(key, 0) + 1
+            for vkind, detail in judge_real(case, res):
+                v = dict(kind=vkind, detail=detail, fault_step=None, fault_key=None, fault_kind="real",
+                         primitive="real:" + case["real"], res=res)
+                sig = signature(case, v)
+                agg["sig_counts"][sig] = agg["sig_counts"].get(sig, 0) + 1
+                agg["findings"].setdefault(sig, (case, v))
+    return agg
 
 
 # --------------------------------------------------------------------------- shrinking
@@ -1418,7 +1680,7 @@ def _merge_counts(dst, src):
 def explore_cases(cases, repeats, deadline):
     """Enumerate the faults of a list of cases (in this process).  Returns an aggregate."""
     tmpbase = _mktmp()
-    agg = dict(stats=_new_stats(), findings={}, sig_counts={}, per_function={}, samples=[],
+    agg = dict(stats=_new_stats(), findings={}, sig_counts={}, per_function={}, per_url={}, samples=[],
                cases=0, exhaustive_cases=0, scheduled_cases=0, invalid_cases=0, invalid_samples=[],
                skipped_for_time=0, runs=0, steps=0)
     install()
@@ -1442,6 +1704,10 @@ def explore_cases(cases, repeats, deadline):
             fk = "%s/%s/%s%s" % (case["function"], case["style"], case["backends"],
                                  "/workers" if workers else "")
             agg["per_function"][fk] = agg["per_function"].get(fk, 0) + runs
+            if case.get("url"):
+                uk = "%s/%s/url=%s/%s" % (case["function"], case["style"], case["url"],
+                                          (case.get("url_form") or URL_FORMS[0]) % "<dir>")
+                agg["per_url"][uk] = agg["per_url"].get(uk, 0) + runs
             if len(agg["samples"]) < 2:
                 agg["samples"].append(dict(case=case, steps=n, faulty_runs=runs,
                                            primitives=[key_str(k) for k in base["trace"]][:40]))
@@ -1482,7 +1748,7 @@ def explore(tier, seed, time_budget=None, procs=None, progress=False, known_sigs
             parts = pool.map(_pool_task, [(c, repeats, deadline) for c in chunks])
     else:
         parts = [explore_cases(cases, repeats, deadline)]
-    out = dict(stats=_new_stats(), findings={}, sig_counts={}, per_function={}, samples=[],
+    out = dict(stats=_new_stats(), findings={}, sig_counts={}, per_function={}, per_url={}, samples=[],
                cases=0, exhaustive_cases=0, scheduled_cases=0, invalid_cases=0, invalid_samples=[],
                skipped_for_time=0, runs=0, steps=0)
     for part in parts:
@@ -1492,6 +1758,7 @@ def explore(tier, seed, time_budget=None, procs=None, progress=False, known_sigs
         _merge_counts(out["stats"], part["stats"])
         _merge_counts(out["sig_counts"], part["sig_counts"])
         _merge_counts(out["per_function"], part["per_function"])
+        _merge_counts(out["per_url"], part["per_url"])
         out["samples"] += part["samples"][:1]
         out["invalid_samples"] += part["invalid_samples"][:1]
         for sig, cv in part["findings"].items():
@@ -1509,12 +1776,17 @@ def explore(tier, seed, time_budget=None, procs=None, progress=False, known_sigs
         n_shrunk = 0
         for sig in sorted(out["findings"]):
             case, v = out["findings"][sig]
-            if sig not in known_sigs and n_shrunk < 10 and shrink_left > 0.5:
+            if sig not in known_sigs and n_shrunk < 10 and shrink_left > 0.5 and v["fault_kind"] != "real":
                 ts = time.time()
                 case, v = shrink(case, v, tmpbase, budget_s=min(shrink_left, 20.0 if thorough else 3.0))
                 shrink_left -= time.time() - ts
                 n_shrunk += 1
             shrunk[sig] = (case, v)
+        real = real_failure_sweep(tier, seed, tmpbase, time.time() + (240.0 if thorough else 30.0))
+        for sig, cv in real["findings"].items():
+            shrunk.setdefault(sig, cv)
+            out["sig_counts"][sig] = out["sig_counts"].get(sig, 0) + real["sig_counts"][sig]
+        out["real_failures"] = dict((k, v) for k, v in real.items() if k != "findings")
         out["findings"] = shrunk
         out["model_tie"] = model_crosscheck(tier, tmpbase)
     finally:
@@ -1555,11 +1827,15 @@ def run(report):
     known_sigs = set(local) | set(k.get("signature") for k in report.known)
     out = explore(report.tier, report.seed, known_sigs=known_sigs)
     reported = 0
+    pending = {}
     for sig in sorted(out["findings"]):
         case, v = out["findings"][sig]
         entry = report.known_match(sig) or local.get(sig)
         if entry:
             report.known_finding(entry, example=payload_of(case, v))
+            continue
+        if sig in PENDING_FINDINGS:
+            pending[sig] = payload_of(case, v)
             continue
         if reported < 10:
             report.violation(payload_of(case, v))
@@ -1575,7 +1851,8 @@ def run(report):
         rule="one evaluation = one run of a move call with one fault (case x step k x fault kind "
              "[x write-prefix variant]); all are distinct by construction; non-trivial = the fault "
              "fired and at least one source file was in the scope of the move (so the no-loss "
-             "predicate was applied to real data)",
+             "predicate was applied to real data); url_runs of them give the source and / or the destination as "
+             "an FS URL; the real_failure_runs (nothing injected, an obstacle at the destination) come on top",
         cases=out["cases"], case_universe=out["universe"], cases_selected=out["selected"],
         cases_skipped_for_time=out["skipped_for_time"], invalid_cases=out["invalid_cases"],
         invalid_samples=out["invalid_samples"],
@@ -1594,6 +1871,12 @@ def run(report):
         fault_not_fired=st["not_fired"], nondeterministic_prefixes=st["nondeterministic"],
         runs_per_configuration=dict(sorted(out["per_function"].items(), key=lambda kv: -kv[1])[:60]),
         signatures_observed=out["sig_counts"],
+        pending_findings=pending,
+        url_runs=sum(n for k, n in out["per_url"].items()),
+        url_runs_by_form=dict(sorted(out["per_url"].items())),
+        real_failure_runs=out["real_failures"]["runs"],
+        real_failure_runs_that_raised=out["real_failures"]["raised"],
+        real_failures=out["real_failures"],
         recovered_by_design=dict(("%s/%s" % k, v) for k, v in RECOVERED_BY_DESIGN.items()),
         model_tie=tie, samples=out["samples"],
         traces_validated_against_impl=tie.get("agree", 0), disagreements_checked=tie.get("disagree", 0))
@@ -1616,6 +1899,33 @@ def replay(report, path):
         return 1 if (not tie.get("ran") or tie.get("disagree")) else 0
     case = d["case"]
     fkind = d["fault_kind"]
+    if fkind == "real":
+        tmpbase = _mktmp()
+        install()
+        failed = 0
+        try:
+            for attempt in range(1 if case["args"].get("workers", 0) == 0 else 25):
+                res = run_once(case, tmpbase)
+                viols = [v for v in judge_real(case, res) if v[0] == d["kind"]]
+                if attempt == 0 or viols:
+                    print("function  :", case["function"], case["style"], case["backends"], json.dumps(case["args"]),
+                          "url=%s (%s)" % (case.get("url"), case.get("url_form")))
+                    print("obstacle  :", case.get("real"), json.dumps(case.get("dst_tree")))
+                    print("outcome   :", res["outcome"], res["error"] or "")
+                    print("before    :", dict((p, _enc(b)) for p, b in sorted(res["before"].items())))
+                    print("src_after :", dict((p, _enc(b)) for p, b in sorted(res["src_after"].items())))
+                    print("dst_after :", dict((p, _enc(b)) for p, b in sorted(res["dst_after"].items())))
+                if viols:
+                    print("STILL FAILS:", viols[0][0], json.dumps(viols[0][1])[:600])
+                    failed = 1
+                    break
+            if not failed:
+                print("does not fail any more")
+        finally:
+            INJ.armed = False
+            uninstall()
+            shutil.rmtree(tmpbase, ignore_errors=True)
+        return failed
     prefix = fkind.endswith("+prefix")
     kind = fkind.split("+")[0]
     workers = case["args"].get("workers", 0)
